@@ -974,7 +974,7 @@ def _lhs_at_most_one(R, f, rejected, unknown, side_names) -> None:
     if only_type and not rest:
         R.violation(q, 'lhs-more-than-one-variable',
                     f"no rejection when the left-hand side holds more than one variable ('Y.Z = 1'): parse_equation gives every ENDOGENOUS symbol of the "
-                    f'statement the equation (`{text(attach[0].ast)[:60]}`), so one statement contributes two equations to the built model', where=f.fi.where)
+                    f'statement the equation (`{text(attach[0].ast)[:60]}`), so one statement contributes two equations to the built model', where=f.fi.where, mismatch=True)
         return
     raise Unknown(f'{P}.parse_equation: the equation is attached under {cond}; cannot tell that only one symbol per statement receives it')
 
@@ -1038,7 +1038,7 @@ def r5a_lhs_variable(R) -> None:
     # alternative: the grammar only admits an identifier on the left
     R.violation(q, 'no-lhs-variable-check',
                 "no rejection when the left-hand side yields no variable ('[] = X', '{a} = X', '`self.Y[t]` = X' pass equation_re): "
-                'the statement would be dropped silently', where=f.fi.where)
+                'the statement would be dropped silently', where=f.fi.where, mismatch=True)
 
 
 def r5c_no_overwrite(R) -> None:
@@ -1150,7 +1150,7 @@ def r5d_repeated_definition(R) -> None:
     if lenient:
         R.violation(q, 'repeated-definition-merged',
                     f"no rejection of a statement that repeats an earlier definition: `{text(st.ast)[:70]}` relies on Symbol.combine, which raises only when the "
-                    f"two equations differ ('Y = X' twice parses to one equation; the second statement is dropped silently)", where=f.where(st.ast))
+                    f"two equations differ ('Y = X' twice parses to one equation; the second statement is dropped silently)", where=f.where(st.ast), mismatch=True)
         return
     raise Unknown(f'{q}: no repeated-definition test before the merge and Symbol.combine\'s own test was not recognised')
 
@@ -1232,7 +1232,7 @@ def r5b_statement_kind(R) -> None:
             raise Unknown(f'{q}: statement is parsed to an AST but no isinstance(..., ast.Assign) test was found where the code is compiled')
         R.violation(q, 'no-statement-kind-check',
                     "the syntax check only tests that the generated statement compiles: 'Y == X', 'Y += X', 'Y = Z = X', 'Y = X; Z = W' are accepted "
-                    '(Y declared endogenous but never assigned, or an exogenous variable assigned)', where=f.fi.where)
+                    '(Y declared endogenous but never assigned, or an exogenous variable assigned)', where=f.fi.where, mismatch=True)
         return
     t = tests[0]
     node = t.ast
